@@ -449,16 +449,16 @@ Qed.
 (* C08_assoc_step: the ASSOCIATE statement records the references of its selectors under the
    associations in force and adds the batch the Spec adds: every name bound to its selector's chain
    (with a leading associate name of an enclosing construct replaced), or to None for an expression *)
-Theorem assoc_step a calls sp pairs :
+Lemma assoc_step_gen upd a calls sp pairs :
   wf_stmt (SAssoc sp pairs) = true -> forallb (fun p => sel_ok (snd p)) pairs = true ->
-  line_step (a, calls) (render_stmt (SAssoc sp pairs)) =
-  Some (a ++ [new_batch a pairs], add_calls a calls (render_stmt (SAssoc sp pairs))).
+  line_step_gen upd (a, calls) (render_stmt (SAssoc sp pairs)) =
+  Some (a ++ [new_batch a pairs], add_gen upd a calls (render_stmt (SAssoc sp pairs))).
 Proof.
   intros Hwf Hsel. destruct (assoc_pairs_ok sp pairs Hwf Hsel) as (Hne & He & Hok).
   destruct (assoc_list_nonempty pairs Hne Hok) as [Hr Hs].
   assert (Er : render_stmt (SAssoc sp pairs) = s "associate" ++ kw_sp sp ++ lpar :: render_e (assoc_list pairs) ++ [rpar]).
   { unfold render_stmt, stmt_segs, render_segs. cbn [map join render_seg]. unfold kw_sp. reflexivity. }
-  unfold line_step. rewrite Er.
+  unfold line_step_gen. rewrite Er.
   assert (E1 : format_re (s "associate" ++ kw_sp sp ++ lpar :: render_e (assoc_list pairs) ++ [rpar]) = false) by reflexivity.
   assert (E2 : end_associate_re (s "associate" ++ kw_sp sp ++ lpar :: render_e (assoc_list pairs) ++ [rpar]) = false) by reflexivity.
   rewrite E1, E2, (associate_re_render sp _ Hr (proj1 render_no_nl _ He)).
@@ -469,8 +469,14 @@ Proof.
   rewrite (proj1 tree_flat). reflexivity.
 Qed.
 
-Lemma end_assoc_step a calls :
-  line_step (a, calls) (render_stmt SEndAssoc) = match rev a with [] => None | _ :: ra => Some (rev ra, calls) end.
+Theorem assoc_step a calls sp pairs :
+  wf_stmt (SAssoc sp pairs) = true -> forallb (fun p => sel_ok (snd p)) pairs = true ->
+  line_step (a, calls) (render_stmt (SAssoc sp pairs)) =
+  Some (a ++ [new_batch a pairs], add_calls a calls (render_stmt (SAssoc sp pairs))).
+Proof. exact (assoc_step_gen append_calls a calls sp pairs). Qed.
+
+Lemma end_assoc_step app a calls :
+  line_step_gen app (a, calls) (render_stmt SEndAssoc) = match rev a with [] => None | _ :: ra => Some (rev ra, calls) end.
 Proof. reflexivity. Qed.
 
 Lemma rev_removelast {A} (a : list A) x ra : rev a = x :: ra -> rev ra = removelast a.
